@@ -58,7 +58,7 @@ reg("C17", "model_checking", "stateless DFS over all interleavings (preemption-b
     "The real linker.PatchLinker plus the unlock/run order extracted from main.go, 2-4 simulated processes, 5 initial cache states, both install modes, 0-2 crashes: on every execution each process that executes the linker reads a complete image of its own version, no deadlock, all live processes finish. Real concurrent builds are sampled in addition.",
     "external tools are stubs validated against strace of the real go command; go-internal's cache is not re-verified", "DESIGN.md 4 C17")
 reg("C18", "fault_enumeration", "crash-point enumeration on the real build: ptrace supervisor kills the process tree before the K-th file-system mutation, for every selected K, then recovery build", C,
-    "Real garble builds from three start states (one with a foreign linker under a stale stamp); killed before each (thorough) / a class-covering selection (quick) of the mutations touching GOCACHE, GARBLE_CACHE and the output; re-running the build on the surviving state must succeed and reproduce the reference binary. Plus -debugdir over an owned directory: every subset of its top-level entries already removed (all states a kill inside the emptying phase can leave under any directory order), each followed by the real build; the model of the emptying phase is compared with a supervised real run.",
+    "Real garble builds from three start states (one with a foreign linker under a stale stamp); killed before each (thorough) / a class-covering selection (quick) of the mutations touching GOCACHE, GARBLE_CACHE and the output; re-running the build on the surviving state must succeed and reproduce the reference binary. Plus -debugdir over an owned directory rebuilt on tmpfs once per permutation of its top-level entries (the directory order is an environment answer that decides what a kill leaves behind): real kills at the top-level boundaries of the emptying phase, then the same build again.",
     "one schedule (-p 1); torn single writes are not produced", "DESIGN.md 4 C18")
 reg("C19", "exploration", "exhaustive enumeration commands x outcomes x -debugdir target states x cache states with recursive snapshots", A,
     "All commands x 7 outcomes and build x 9 debugdir states x cache states: source tree byte-identical, private TMPDIR empty, foreign targets untouched and refused, owned targets complete, identical across runs, every garbled Go file corresponds to its source (declaration skeleton) and every garbled assembly/header file of every package is the line-by-line image of its source.",
